@@ -80,6 +80,7 @@ func runReplay(cfg Config) {
 		fatal(err)
 	}
 	defer m.Close()
+	batchModel = m
 	bad := 0
 	for _, d := range rf.Disagreements {
 		cmd := strings.SplitN(d.Case, " ", 2)[0]
